@@ -663,6 +663,44 @@ func vfC14ScriptedCases() []vfCase {
 					return
 				}
 			}
+			// scripted ends over the relay's tunnel: with a tunnel the relay keeps binary, but still clamps the protocol
+			rig.relay.SetTunnelConnector(func(port int) net.Conn {
+				conn, err := net.DialTimeout("tcp", fmt.Sprintf("127.0.0.1:%d", port), 2*time.Second)
+				if err != nil {
+					return nil
+				}
+				return conn
+			})
+			for k := 0; k < 3 && i%2 == 0; k++ {
+				if !rig.tunnelEpisode(r) {
+					c.Replay(map[string]interface{}{"history": hist, "tunnel_episode": k})
+					return
+				}
+				var in, out transferAction
+				dout, e := vfDecodeLine(rig.tunActOut)
+				if rig.tunActOut == "" || e != nil || json.Unmarshal(dout, &out) != nil || json.Unmarshal([]byte(rig.tunActIn), &in) != nil {
+					c.Viol("c14-act-undecodable", "tunnel script: ACT at the server end of the tunnel %q cannot be decoded", vfHeadS(rig.tunActOut, 80))
+					c.Replay(map[string]interface{}{"history": hist, "tunnel_episode": k, "act": rig.tunActIn})
+					return
+				}
+				want := in
+				if want.Protocol > kProtocolVersion {
+					want.Protocol = kProtocolVersion
+				}
+				if out.Protocol > kProtocolVersion {
+					c.Viol("c14-protocol-raised:tunnel", "tunnel script: the client's ACT (protocol %d) reached the server through the relay's tunnel with protocol %d; the relay understands %d", in.Protocol, out.Protocol, kProtocolVersion)
+					c.Replay(map[string]interface{}{"history": hist, "tunnel_episode": k, "act": rig.tunActIn})
+					return
+				}
+				if !reflect.DeepEqual(out, want) {
+					c.Viol("c14-act-altered:tunnel", "tunnel script: ACT at the server end %+v differs from the narrowed client ACT %+v", out, want)
+					c.Replay(map[string]interface{}{"history": hist, "tunnel_episode": k, "act": rig.tunActIn})
+					return
+				}
+				c.Obs("act_lines_compared", 1)
+				c.Obs("scripted_tunnel_act_lines", 1)
+				hist = append(hist, fmt.Sprintf("tunnel/p%d", in.Protocol))
+			}
 			c.SetAdd("sequences", "scripted:"+strings.Join(hist, ">"))
 			c.Nontrivial(fmt.Sprintf("scripted %v", hist))
 			if i < 2 {
